@@ -946,7 +946,73 @@ def t11_dict_overrides():
 
 
 
-ITEMS = {"T1": t1_fields, "T2": t2_whitelist, "T3": t3_file_modes, "T4": t4_conv_axis, "T5": t5_flatten, "T6": t6_lif, "T7": t7_cuba, "T8": t8_unique_name, "T9": t9_neuron_shapes, "T10": t10_guards, "T11": t11_dict_overrides}
+# ---------------------------------------------------------------------------------------
+# T12  NIRGraph.__post_init__: how the graph-level input_type / output_type are derived from the children
+# ---------------------------------------------------------------------------------------
+def t12_graph_interface():
+    item = "T12"
+    tree = ast.parse(_src("nir/ir/graph.py"))
+    fn = _find_func(tree, "__post_init__", "NIRGraph")
+    if fn is None:
+        raise Refusal(item, "NIRGraph.__post_init__ not found")
+    body = [st for st in fn.body if not (isinstance(st, ast.Expr) and isinstance(st.value, ast.Constant))]
+    keys = {}      # list variable -> class name
+    rows = []
+    for st in body:
+        if not (isinstance(st, ast.Assign) and len(st.targets) == 1):
+            raise Refusal(item, "a statement of __post_init__ is not a plain assignment")
+        tg, v = st.targets[0], st.value
+        if isinstance(tg, ast.Name):
+            ok = isinstance(v, ast.ListComp) and isinstance(v.elt, ast.Name) and len(v.generators) == 1
+            g = v.generators[0] if ok else None
+            ok = ok and isinstance(g.target, ast.Tuple) and [getattr(e, "id", None) for e in g.target.elts] == [v.elt.id, "node"] \
+                and ast.dump(g.iter) == "Call(func=Attribute(value=Attribute(value=Name(id='self', ctx=Load()), attr='nodes', ctx=Load()), " \
+                                        "attr='items', ctx=Load()), args=[], keywords=[])" \
+                and len(g.ifs) == 1 and isinstance(g.ifs[0], ast.Call) and getattr(g.ifs[0].func, "id", None) == "isinstance" \
+                and len(g.ifs[0].args) == 2 and getattr(g.ifs[0].args[0], "id", None) == "node" and isinstance(g.ifs[0].args[1], ast.Name)
+            if not ok:
+                raise Refusal(item, f"{tg.id} is not `[k for k, node in self.nodes.items() if isinstance(node, <Class>)]`")
+            keys[tg.id] = g.ifs[0].args[1].id
+        elif isinstance(tg, ast.Attribute) and isinstance(tg.value, ast.Name) and tg.value.id == "self" and tg.attr in ("input_type", "output_type"):
+            none_when_empty = False
+            d = v
+            if isinstance(v, ast.IfExp):
+                t = v.test
+                ok = isinstance(t, ast.Compare) and len(t.ops) == 1 and isinstance(t.ops[0], ast.Gt) \
+                    and isinstance(t.left, ast.Call) and getattr(t.left.func, "id", None) == "len" and len(t.left.args) == 1 \
+                    and isinstance(t.left.args[0], ast.Name) and isinstance(t.comparators[0], ast.Constant) and t.comparators[0].value == 0 \
+                    and isinstance(v.orelse, ast.Constant) and v.orelse.value is None
+                if not ok:
+                    raise Refusal(item, f"self.{tg.attr}: the conditional is not `… if len(<keys>) > 0 else None`")
+                none_when_empty = True
+                d = v.body
+                guard_var = t.left.args[0].id
+            ok = isinstance(d, ast.DictComp) and isinstance(d.key, ast.Name) and len(d.generators) == 1 \
+                and isinstance(d.generators[0].target, ast.Name) and d.generators[0].target.id == d.key.id \
+                and isinstance(d.generators[0].iter, ast.Name) and not d.generators[0].ifs \
+                and isinstance(d.value, ast.Attribute) and d.value.attr in ("input_type", "output_type") \
+                and ast.dump(d.value.value) == f"Subscript(value=Attribute(value=Name(id='self', ctx=Load()), attr='nodes', ctx=Load()), " \
+                                               f"slice=Name(id='{d.key.id}', ctx=Load()), ctx=Load())"
+            if not ok:
+                raise Refusal(item, f"self.{tg.attr} is not `{{key: self.nodes[key].<type> for key in <keys>}}`")
+            kv = d.generators[0].iter.id
+            if kv not in keys or (none_when_empty and guard_var != kv):
+                raise Refusal(item, f"self.{tg.attr}: the key list is not one computed above")
+            rows.append((tg.attr, keys[kv], d.value.attr, none_when_empty))
+        else:
+            raise Refusal(item, "an assignment of __post_init__ targets something else than a local or self.<type>")
+    if sorted(r[0] for r in rows) != ["input_type", "output_type"]:
+        raise Refusal(item, "__post_init__ does not assign input_type and output_type exactly once each")
+    txt = HEADER + "\nnamespace NirVerif.Generated\n\n" \
+        "/-- `NIRGraph.__post_init__`: (graph-level attribute, class of the children it collects, child attribute it maps their\n" \
+        "names to, `None` instead of the empty dictionary when there is no such child) -/\n" \
+        "def graphPortSpec : List (String × String × String × Bool) :=\n  [" + \
+        ", ".join(f"({lean_str(a)}, {lean_str(c)}, {lean_str(b)}, {'true' if n else 'false'})" for a, c, b, n in rows) + "]\n\nend NirVerif.Generated\n"
+    return {"GraphInterface.lean": txt}
+
+
+
+ITEMS = {"T1": t1_fields, "T2": t2_whitelist, "T3": t3_file_modes, "T4": t4_conv_axis, "T5": t5_flatten, "T6": t6_lif, "T7": t7_cuba, "T8": t8_unique_name, "T9": t9_neuron_shapes, "T10": t10_guards, "T11": t11_dict_overrides, "T12": t12_graph_interface}
 
 
 def regenerate(out_dir=OUT, items=None):
